@@ -76,6 +76,17 @@ class Grid(object):
 
         self._data = np.zeros((self.nrows, self.ncols), dtype=dtype)
 
+    def _clip(self, value):
+        """ Clip values to the allowed range. Infinite bounds are not
+        applied to avoid converting large integers to float. """
+        if np.isfinite(self.mindata):
+            value = np.maximum(value, self.mindata)
+
+        if np.isfinite(self.maxdata):
+            value = np.minimum(value, self.maxdata)
+
+        return value
+
     def _getsize(self):
         """ Returns dimensions of the grid """
         xll = self.xllcorner
@@ -390,8 +401,7 @@ class Grid(object):
                       + f" data has {ncols}, but expects {self.ncols}."
             raise ValueError(errmess)
 
-        self._data = np.clip(_value, self.mindata,
-                             self.maxdata).astype(self.dtype)
+        self._data = self._clip(_value).astype(self.dtype)
 
     @property
     def nodata(self):
@@ -499,8 +509,8 @@ class Grid(object):
                       + f" expecting {nval}."
             raise ValueError(errmess)
 
-        self._data = np.clip(data.reshape((self.nrows, self.ncols)),
-                             self.mindata, self.maxdata).astype(self.dtype)
+        data = data.reshape((self.nrows, self.ncols))
+        self._data = self._clip(data).astype(self.dtype)
 
     def to_dict(self):
         """ Export grid metadata to json """
